@@ -321,3 +321,108 @@ Example ex_free_quirks :
   write_free 3 [] (GList []) = ([], 1) /\ write_free 3 [] (GList [GNil]) = ([], 3) /\
   write_free 3 [] (GMapI GT_INT [(1, GBool true)]) = ([10; 2; 0; 0; 0; 1; 0; 0; 0; 0; 0; 0; 0; 1; 1], 0).
 Proof. vm_compute. repeat split; reflexivity. Qed.
+
+(* ================================================================== (T4 generalised) an undeclared member anywhere in a struct *)
+(* writer, by id and by name: with disallowUnknown the call fails wherever the member sits among the others (status exactly 1 =
+   error when the members before it are written without error); without it the output is the output without that member.
+   reader: an undeclared field after any declared ones is an error under disallowUnknown (without it: skipped, T2) *)
+Theorem C19_unknown_member_anywhere :
+  forall cast n fs b,
+  (forall id x pre post, afby_id id fs = None ->
+     snd (write_any_desc cast true false (S n) (AStruct fs) b (GStructN (pre ++ (id, x) :: post))) <> 0 /\
+     (snd (write_any_desc cast true false (S n) (AStruct fs) b (GStructN pre)) = 0 ->
+      snd (write_any_desc cast true false (S n) (AStruct fs) b (GStructN (pre ++ (id, x) :: post))) = 1) /\
+     write_any_desc cast false false (S n) (AStruct fs) b (GStructN (pre ++ (id, x) :: post)) =
+     write_any_desc cast false false (S n) (AStruct fs) b (GStructN (pre ++ post))) /\
+  (forall nm x pre post, afby_name nm fs = None ->
+     snd (write_any_desc cast true true (S n) (AStruct fs) b (GMapS (pre ++ (nm, x) :: post))) <> 0 /\
+     (snd (write_any_desc cast true true (S n) (AStruct fs) b (GMapS pre)) = 0 ->
+      snd (write_any_desc cast true true (S n) (AStruct fs) b (GMapS (pre ++ (nm, x) :: post))) = 1) /\
+     write_any_desc cast false true (S n) (AStruct fs) b (GMapS (pre ++ (nm, x) :: post)) =
+     write_any_desc cast false true (S n) (AStruct fs) b (GMapS (pre ++ post))).
+Proof. exact write_unknown_member_anywhere. Qed.
+Print Assumptions C19_unknown_member_anywhere.
+
+Theorem C19_unknown_field_anywhere :
+  forall u8 byname n dfs pre t id rest,
+  wf (VStruct pre) = true -> conf true (AStruct dfs) (VStruct pre) = true ->
+  gfresh (gval_of u8 byname (AStruct dfs) (VStruct pre)) = true ->
+  (depth (VStruct pre) <= S n)%nat -> (depth (VStruct pre) <= S max_skip_depth)%nat ->
+  type_valid t = true -> t <> 0 -> in_sb 16 id = true -> afby_id (id mod 65536) dfs = None ->
+  read_any_desc u8 true byname (S n) (AStruct dfs)
+    (flat_map (fun f => type_of (snd f) :: enc_int 2 (fst f) ++ encode (snd f)) pre ++ t :: enc_int 2 id ++ rest) = None.
+Proof. exact read_unknown_field_anywhere. Qed.
+Print Assumptions C19_unknown_field_anywhere.
+
+(* ================================================================== WriteStringWithDesc / ReadStringWithDesc (text form), algorithm level *)
+(* model/ThriftText.v transcribes WriteStringWithDesc (= DecodeText(..., useFieldName, asJson = false)) and ReadStringWithDesc
+   (= EncodeText) as coded; checks 1929 / 1930 compare it with the implementation. [canon_text fd b64 d v] is the spelling the
+   reader prints: true / false, decimal integers (a BYTE as 0..255), fd bits for a double, the string itself, base64 for a binary
+   field under base64Binary. Outside the model: spellings of doubles beyond the JSON number grammar (status 2), the JSON path of
+   DecodeText (asJson = true, never taken by WriteStringWithDesc), the STRUCT case of EncodeText. *)
+From DG Require Import Num ThriftText ThriftTextProofs.
+
+(* the canonical spelling of every conforming scalar / string value is written as the standard encoding; so is the signed
+   spelling of a BYTE; so is a comma-joined non-empty list / set of such spellings *)
+Theorem C19_write_string_with_desc :
+  (forall fd b64 d v b,
+     is_leaf v = true -> wf v = true -> conf true d v = true -> bools01 v = true -> doubles_ok fd v = true ->
+     write_string_desc b64 d b (canon_text fd b64 d v) = (b ++ encode v, 0)) /\
+  (forall b64 z b, in_sb 8 z = true -> write_string_desc b64 (AScalar T_BYTE) b (fmt_int z) = (b ++ encode (VByte z), 0)) /\
+  (forall fd b64 (set : bool) e es b,
+     es <> [] -> Forall (fun x => is_leaf x = true /\ wf x = true /\ conf true e x = true /\ bools01 x = true /\
+                                  doubles_ok fd x = true /\ no_comma (canon_text fd b64 e x) = true) es ->
+     write_string_desc b64 (if set then ASet e else AList e) b (join_with 44 (map (canon_text fd b64 e) es))
+     = (b ++ encode (if set then VSet (dtype e) es else VList (dtype e) es), 0)).
+Proof.
+  split; [exact write_string_desc_canonical|]. split; [exact write_string_desc_byte_signed | exact write_string_desc_list].
+Qed.
+Print Assumptions C19_write_string_with_desc.
+
+(* the error side. On a scalar / string (and map / struct) descriptor every text that is not accepted leaves the buffer untouched;
+   which texts are errors: ParseInt (syntax, or beyond int64), ParseBool, a double beyond the largest double, base64 that does not
+   decode, every text for a map or a struct. AS CODED a text beyond the WIDTH of the integer type is not an error: it is
+   truncated (last statement) - reported to the lead as an observation, the property text does not speak about it *)
+Theorem C19_write_string_with_desc_errors :
+  (forall b64 d b s, match d with AScalar _ | AString _ | AMap _ _ | AStruct _ => True | _ => False end ->
+     snd (write_string_desc b64 d b s) <> 0 -> fst (write_string_desc b64 d b s) = b) /\
+  (forall b64 b s,
+     (forall t, is_int_type t = true -> text_int s = None -> write_string_desc b64 (AScalar t) b s = (b, 1)) /\
+     (text_bool s = None -> write_string_desc b64 (AScalar T_BOOL) b s = (b, 1)) /\
+     (text_f64 s = Some None -> write_string_desc b64 (AScalar T_DOUBLE) b s = (b, 1)) /\
+     (text_b64 s = None -> write_string_desc true (AString true) b s = (b, 1)) /\
+     (forall k e, write_string_desc b64 (AMap k e) b s = (b, 1)) /\ (forall fs, write_string_desc b64 (AStruct fs) b s = (b, 1))) /\
+  (forall b64 b s z, text_int s = Some z ->
+     write_string_desc b64 (AScalar T_BYTE) b s = (b ++ [z mod 256], 0) /\
+     write_string_desc b64 (AScalar T_I16) b s = (b ++ enc_int 2 z, 0) /\
+     write_string_desc b64 (AScalar T_I32) b s = (b ++ enc_int 4 z, 0)).
+Proof.
+  split; [exact write_string_desc_leaf_error|]. split; [exact write_string_desc_errors | exact write_string_desc_truncates].
+Qed.
+Print Assumptions C19_write_string_with_desc_errors.
+
+(* ReadStringWithDesc prints the canonical spelling, and WriteStringWithDesc of what it printed reproduces the bytes *)
+Theorem C19_write_read_string_with_desc :
+  forall fd b64 d v n r b,
+  is_leaf v = true -> wf v = true -> conf true d v = true -> bools01 v = true -> doubles_ok fd v = true ->
+  read_string_desc fd b64 (S n) d (encode v ++ r) = Some (canon_text fd b64 d v, r) /\
+  write_string_desc b64 d b (canon_text fd b64 d v) = (b ++ encode v, 0).
+Proof.
+  intros. split; [apply read_string_desc_canonical; assumption | apply write_string_desc_canonical; assumption].
+Qed.
+Print Assumptions C19_write_read_string_with_desc.
+
+Example ex_text :
+  write_string_desc false (AScalar T_I16) [] [45; 51; 50; 55; 54; 56] = (encode (VI16 (-32768)), 0) /\       (* "-32768" *)
+  write_string_desc false (AScalar T_I16) [] [51; 50; 55; 54; 56] = (encode (VI16 (-32768)), 0) /\           (* "32768": truncated, as coded *)
+  write_string_desc false (AScalar T_I64) [] [57;50;50;51;51;55;50;48;51;54;56;53;52;55;55;53;56;48;56] = ([], 1) /\   (* 2^63 *)
+  write_string_desc false (AScalar T_BOOL) [] [84; 114; 117; 101] = ([1], 0) /\                                (* "True" *)
+  write_string_desc false (AScalar T_BOOL) [] [121; 101; 115] = ([], 1) /\                                     (* "yes" *)
+  write_string_desc false (AScalar T_DOUBLE) [] [48; 46; 53] = (encode (VDouble 4602678819172646912), 0) /\    (* "0.5" *)
+  write_string_desc false (AScalar T_DOUBLE) [] [49; 101; 52; 48; 48] = ([], 1) /\                             (* "1e400" *)
+  write_string_desc false (AScalar T_DOUBLE) [] [46; 53] = ([], 2) /\                                          (* ".5": outside the model *)
+  write_string_desc true (AString true) [] [81; 85; 73; 61] = (encode (VString [65; 66]), 0) /\                (* "QUI=" *)
+  write_string_desc true (AString true) [] [81; 85; 73] = ([], 1) /\
+  write_string_desc false (AList (AScalar T_BYTE)) [] [49; 44; 45; 49; 44; 50; 53; 53] = (encode (VList T_BYTE [VByte 1; VByte (-1); VByte (-1)]), 0) /\
+  write_string_desc false (AList (AScalar T_BYTE)) [] [49; 44; 120] = ([3; 0; 0; 0; 2; 1], 1).                 (* "1,x": header and first piece stay *)
+Proof. vm_compute. repeat split; reflexivity. Qed.
